@@ -138,14 +138,14 @@ theorem fromBonds_lookup : ∀ (bonds : List RBond) (adj adj' : List (Nat × Lis
           · exact step _ h
         · exact step _ h
 
-theorem applyStereo_length (bonds out : List RBond) (i j : Nat) (st : RdStereo) (sa : Nat × Nat)
-    (h : applyStereo bonds i j st sa = .ok out) : out.length = bonds.length := by
+theorem applyStereo_length (bonds out : List RBond) (i j : Nat) (st : RdStereo) (sa : Nat × Nat) (i0 : Nat)
+    (h : applyStereo bonds i j st sa i0 = .ok out) : out.length = bonds.length := by
   unfold applyStereo at h
   split at h
   · cases h
-  · split at h
-    · simp only [Except.ok.injEq] at h; subst h; simp
-    · cases h
+  · simp only at h
+    repeat' split at h
+    all_goals first | (simp only [Except.ok.injEq] at h; subst h; simp) | cases h
 
 theorem setBondStereo_length (env : StereoEnv) (ids : List Nat) :
     ∀ (cb : List (Nat × Nat × Bond)) (bonds out : List RBond), setBondStereo env ids cb bonds = .ok out →
@@ -164,7 +164,7 @@ theorem setBondStereo_length (env : StereoEnv) (ids : List Nat) :
       · split at h
         · cases h
         · rename_i b' hb'
-          rw [ih b' out h, applyStereo_length _ _ _ _ _ _ hb']
+          rw [ih b' out h, applyStereo_length _ _ _ _ _ _ _ hb']
 
 theorem mapM_fromAtom_fst_length (as : List RAtom) (out : List (Atom × Nat)) (h : as.mapM fromAtom = .ok out) :
     out.length = as.length := mapM_ok_length fromAtom as out h
